@@ -17,8 +17,8 @@ macro_rules! lk_all {
         lk!($tc, $shape, LCompact, PCompact, compact, $unw_cmp);
     };
 }
-lk_all!(q, q, V_I32, 7, 7);
-lk_all!(t, q, V_BOOL, 7, 7);
+lk_all!(q, t, V_I32, 7, 7);
+lk_all!(t, t, V_BOOL, 7, 7);
 lk_all!(t, t, V_I64, 7, 12);
 lk_all!(t, t, V_DOUBLE, 7, 7);
 lk_all!(q, t, V_BINARY2, 7, 7);
@@ -31,3 +31,16 @@ crate::proof!{ #[kani::unwind(7)] fn c01_q_linked_zero_copy_bin() { linked::link
 crate::proof!{ #[kani::unwind(7)] fn c01_t_linked_zero_copy_le() { linked::linked_zero_copy::<LLe>() } }
 crate::proof!{ #[kani::unwind(7)] fn c01_t_linked_zero_copy_compact() { linked::linked_zero_copy::<LCompact>() } }
 crate::proof!{ #[kani::unwind(7)] fn c01_t_linked_zero_copy_unchecked() { linked::linked_zero_copy::<LUnchecked>() } }
+
+// concrete id patterns (prev, id, after): ascending short deltas; long form then back then short;
+// short then long then short; negative, zero, delta 16
+macro_rules! lkc {
+    ($tier:ident, $n:ident, $shape:ident, $prev:expr, $id:expr, $after:expr) => { paste! {
+        crate::proof!{ #[kani::unwind(12)] fn [<c01_ $tier _linkedids_ $n _ $shape:lower _compact>]() { linked::linked_vs_contiguous_ids::<LCompact, PCompact, {$shape}, $prev, $id, $after>() } }
+    }};
+}
+lkc!(q, ascending, V_I32, 1, 2, 3);
+lkc!(q, jump_back_short, V_BOOL, 20, 3, 5);
+lkc!(q, short_long_short, V_I64, 5, 40, 41);
+lkc!(q, negative_zero_16, V_BINARY2, -3, 0, 16);
+lkc!(t, jump_back_short, V_STRUCT_NEST, 30, 2, 31);
